@@ -29,3 +29,16 @@ func BytesForX(x float64) [8]byte {
 	binary.LittleEndian.PutUint64(b[:], math.Float64bits(f))
 	return b
 }
+
+// Sequence returns a source whose first draw yields x and whose later draws
+// (the uploader redraws when it does not like a value) yield 0.625, 0.5625, ...
+func Sequence(x float64) func() [8]byte {
+	n := 0
+	return func() [8]byte {
+		n++
+		if n == 1 {
+			return BytesForX(x)
+		}
+		return BytesForX(0.5 + 0.125/float64(n-1))
+	}
+}
